@@ -31,3 +31,12 @@ def memberOf (s : String) : Option Member :=
 def showBool (b : Bool) : String := if b then "true" else "false"
 
 end LeanHelix.Parse
+
+namespace LeanHelix.Parse
+def hexChar (d : Nat) : Char := if d < 10 then Char.ofNat (48 + d) else Char.ofNat (87 + d)
+
+/-- inverse of `idOfTok` on its range -/
+def tokOfId (n : Nat) : String :=
+  let ds := (Nat.toDigits 16 n)
+  "x" ++ String.ofList (ds.drop 1)
+end LeanHelix.Parse
